@@ -55,7 +55,7 @@ def solvePicks (rq : Request) (fuel : Nat) (m : Message) (realFlat : List (Str Ã
   | (s, n) :: rest =>
     let want := realFlat.lookup s
     let hit := (List.range n).find? fun i =>
-      optLeafEq ((flattenVal fuel [] (mockMsg rq (setPick env s i) fuel [] m)).lookup s) want
+      optLeafEq ((flattenVal fuel [] (mockMsg rq (setPick env s i) fuel [] [] m)).lookup s) want
     solvePicks rq fuel m realFlat (match hit with | some i => setPick env s i | none => env) rest
 
 def rndFrom (realFlat : List (Str Ã— Val)) (s : Str) : List Nat :=
@@ -73,16 +73,16 @@ def opMockAnswer (j : Lean.Json) : Lean.Json :=
   | some m, some file =>
     let fuel := rq.allMessages.length + 2
     let encFuel := 4 * fuel + 8
-    let fin := finishes rq fuel m
+    let fin := finishes rq fuel [] m
     let tbl := exampleTable file decls
     let tblName := match tbl with | .ok _ => "ok" | .unparsable => "unparsable" | .outside => "outside"
     let table : Table := match tbl with | .ok t => t | _ => []
-    let defects := (msgDefects rq fuel m).eraseDups
+    let defects := (msgDefects rq fuel [] m).eraseDups
     let env0 : Env := { tbl := table, floats := floats }
-    let ss := sites rq env0 fuel [] m
+    let ss := sites rq env0 fuel [] [] m
     -- can some draw make a string field hold invalid UTF-8?
     let can500 := ss.any fun sn => (List.range sn.2).any fun i =>
-      (mockMsg rq (setPick env0 sn.1 i) fuel [] m).any fun p => hasBadUtf8 (fuel + 2) p.2
+      (mockMsg rq (setPick env0 sn.1 i) fuel [] [] m).any fun p => hasBadUtf8 (fuel + 2) p.2
     let base : List (String Ã— Lean.Json) := [("finishes", Lean.Json.bool fin), ("table", Lean.Json.str tblName),
       ("table_rows", Lean.Json.arr (table.map fun r => Lean.Json.mkObj [("key", jstr r.1),
           ("values", Lean.Json.arr (r.2.map fun v => match v with | some s => jstr s | none => Lean.Json.null).toArray)]).toArray),
@@ -96,7 +96,7 @@ def opMockAnswer (j : Lean.Json) : Lean.Json :=
          let realFlat := flattenVal (fuel + 2) [] rvs
          let env1 : Env := { env0 with rnd := rndFrom realFlat }
          let env := solvePicks rq fuel m realFlat env1 ss
-         let model := mockMsg rq env fuel [] m
+         let model := mockMsg rq env fuel [] [] m
          let solved := valEq (fuel + 4) (.msg model) (.msg rvs)
          let comps := OpenApi.objOf (ofLeanJson (j.getObjValD "components"))
          let schema := ofLeanJson (j.getObjValD "schema")
